@@ -1,11 +1,41 @@
 /-
-  PrtpyProofs.MaxMin — (1) max-min guarantee of LPT (`greedy`), (2) the binary search of `multifit`.
+  PrtpyProofs.MaxMin — property C08:
+  (1) the max-min guarantee of LPT (`greedy`), (2) the binary search of `multifit`.
+
+  Part 1 (sections 1–6): how close LPT's smallest sum `L` is to the optimal smallest sum `OPT`
+  (Deuermeyer–Friesen–Langston 1982: `3/4`; Csirik–Kellerer–Woeginger 1992: exactly `(3k−1)/(4k−2)`).
+  * §1 `run_eraseBin`: erasing a bin from the result of the LPT loop gives the LPT loop, on one bin less, of the
+    items that were not put on that bin (`skipRun`).
+  * §2/§3: a bin whose sum exceeds the final smallest sum is never used again; after `k` positive items every bin
+    holds one item.
+  * §4 `cover_drop_pair`: if `k+2` bins of sum `≥ W` hold `a ≥ z` and `k+1` further values `≥ a`, then the
+    values without `a, z` fill `k+1` bins to `W` (pigeonhole + exchange).
+  * §5 `peel_first_pair`: if `L < 2·y` (`y` the `(k+1)`-th value), the bin that receives the `(k+1)`-th item is a
+    closed pair and can be removed together with one bin of any cover.  Induction over `k` then gives
+      - `run_maxmin_two_thirds` / `greedy_maxmin_partial_2k_3k`:  `2k·OPT ≤ (3k−1)·L`  (unconditional),
+        hence `greedy_maxmin_partial_two_thirds`: `2·OPT ≤ 3·L`;
+      - `run_maxmin_window` / `greedy_maxmin_partial_window`: the exact bound `(3k−1)·OPT ≤ (4k−2)·L` when no
+        item after the `k` largest has a value in the window `(k·OPT/(4k−2), L/2]`;
+      - `greedy_maxmin_partial_cert`: the exact bound from an a-posteriori certificate on LPT's bins.
+    The exact bound without side condition (`greedy_maxmin`) is NOT proved; see the comment at
+    `greedy_maxmin_partial_window` for the precise open case.
+
+  Part 2 (section 7): `multifit`.
+  * `multifit_search_invariant`: the search interval is halved in every iteration; its lower end is the initial
+    one or a capacity at which first-fit-decreasing fails, its upper end the initial one or a capacity that fits.
+  * `multifit_lo_bound`: the initial lower bound and the initial interval length are `≤ OPT`.
+  * `multifit_ratio_of_ffdFits`: if first-fit-decreasing fits for every capacity `≥ ρ·OPT` (`FfdFits ρ`), the
+    largest sum of multifit is `≤ (ρ + 2^−it)·OPT`.
+  * `ffd_fits_four_thirds` / `ffdFits_four_thirds`: `FfdFits (4/3)` (from `LPT43.large_fits`), and
+    `ffdFits_anyfit`: `FfdFits (2k/(k+1))`; hence `multifit_ratio_four_thirds`: `(4/3 + 2^−it)·OPT`,
+    `multifit_ratio_anyfit`, `multifit_ratio_two`.
 -/
 import Mathlib.Tactic.Linarith
 import Mathlib.Tactic.Ring
 import Mathlib.Tactic.Positivity
 import Prtpy
 import PrtpyProofs.Part
+import PrtpyProofs.Fit
 import PrtpyProofs.Oracle
 import PrtpyProofs.LPT43
 open Prtpy
@@ -439,16 +469,189 @@ theorem run_spread {v : α → Nat} {k : Nat} (hk : 0 < k) {xs : List α}
       · right; exact h)
     hQk hQp hQ
 
+/-! ### the items that are not put on a closed bin -/
+
+theorem skipRun_append (v : α → Nat) (j : Nat) : ∀ (P R : List α) (b : Bins α),
+    skipRun v j b (P ++ R) = skipRun v j b P ++ skipRun v j (P.foldl (greedyStep v) b) R
+  | [], _, _ => by simp [skipRun]
+  | x :: P, R, b => by
+    simp only [List.cons_append, skipRun, List.foldl_cons]
+    rw [skipRun_append v j P R]
+    split <;> simp
+
+/-- once a bin is closed, all later items are kept -/
+theorem skipRun_closed (v : α → Nat) {k : Nat} (hk : 0 < k) (j s : Nat) : ∀ (R P : List α),
+    (run v k P).sums[j]? = some s → minL (run v k (P ++ R)).sums < s → skipRun v j (run v k P) R = R
+  | [], _, _, _ => by simp [skipRun]
+  | x :: R, P, hs, hlt => by
+    have hne := run_sums_ne_nil v hk P
+    have hlt' := Part.argmin_lt hne
+    have hmono := run_min_mono v hk P (x :: R)
+    have hi : argmin (run v k P).sums ≠ j := by
+      intro e
+      have := Part.getElem_argmin hlt'
+      have h3 : (run v k P).sums[argmin (run v k P).sums]? = some s := by rw [e]; exact hs
+      rw [List.getElem?_eq_getElem hlt', this] at h3
+      simp only [Option.some.injEq] at h3
+      omega
+    simp only [skipRun, if_neg hi]
+    rw [← run_snoc]
+    rw [skipRun_closed v hk j s R (P ++ [x]) (by rw [run_snoc, greedyStep_sums_ne v _ x j hi]; exact hs)
+      (by simpa using hlt)]
+
+/-- **Peeling the first pair.**  Let `k = k' + 1 ≥ 2`, let `xs` be ordered and let LPT's smallest sum `L` satisfy
+    `L < 2·y`, `y` the `(k+1)`-th value.  Then the bin that receives the `(k+1)`-th item holds exactly two items
+    `a ≥ z = y` (sum `≥ 2y > L`, so it is never used again), and the other bins start with an item `≥ a`.
+    Removing this bin leaves the LPT run, on `k − 1` bins, of a sublist `ys` of `xs` with the same smallest sum
+    (`run_eraseBin`); `ys` ends like `xs`; and if the values of `xs` can be split into `k` bins of sum `≥ W`, the
+    values of `ys` can be split into `k − 1` such bins (`cover_drop_pair`). -/
+theorem peel_first_pair {v : α → Nat} {k' : Nat} (hk'pos : 0 < k') {xs : List α}
+    (hS : xs.Pairwise (fun a c => v c ≤ v a)) (hklt : k' + 1 < xs.length)
+    (hy : minL (run v (k' + 1) xs).sums < 2 * v xs[k' + 1]) {W : Nat} (Q : List (List Nat))
+    (hQk : Q.length = k' + 1) (hQp : Q.flatten.Perm (xs.map v)) (hQ : ∀ l ∈ Q, W ≤ sumL l) :
+    ∃ ys : List α, ys.Sublist xs ∧ minL (run v k' ys).sums = minL (run v (k' + 1) xs).sums ∧
+      ys.drop k' = xs.drop (k' + 2) ∧
+      ∃ Q' : List (List Nat), Q'.length = k' ∧ Q'.flatten.Perm (ys.map v) ∧ ∀ l ∈ Q', W ≤ sumL l := by
+  have hk : 0 < k' + 1 := by omega
+  -- split the list
+  have hsplit : xs = (xs.take (k' + 1) ++ [xs[k' + 1]]) ++ xs.drop (k' + 2) := by
+    rw [List.append_assoc, List.singleton_append, ← List.drop_eq_getElem_cons hklt,
+      List.take_append_drop]
+  have hPlen : (xs.take (k' + 1)).length = k' + 1 := by rw [List.length_take]; omega
+  have hPz : ∀ a ∈ xs.take (k' + 1), v xs[k' + 1] ≤ v a := by
+    intro a ha
+    obtain ⟨i, hi, rfl⟩ := List.mem_iff_getElem.1 ha
+    rw [List.getElem_take]
+    exact (List.pairwise_iff_getElem.1 hS) i (k' + 1) (by omega) hklt (by omega)
+  have hpos : ∀ a ∈ xs.take (k' + 1), 1 ≤ v a := fun a ha => by have := hPz a ha; omega
+  -- the state after `k` items
+  obtain ⟨hperm, hlists, hcons⟩ := run_valid v hk (xs.take (k' + 1))
+  have hc : (run v (k' + 1) (xs.take (k' + 1))).sums =
+      (run v (k' + 1) (xs.take (k' + 1))).lists.map (binSum v) := hcons
+  have hsing := run_singletons v hk _ hPlen hpos
+  have hne := run_sums_ne_nil v hk (xs.take (k' + 1))
+  have hjlt := Part.argmin_lt hne
+  have hslen : (run v (k' + 1) (xs.take (k' + 1))).sums.length = k' + 1 := run_sums_length v hk _
+  have hjl : argmin (run v (k' + 1) (xs.take (k' + 1))).sums <
+      (run v (k' + 1) (xs.take (k' + 1))).lists.length := by omega
+  -- every bin is a singleton whose value is the bin sum
+  have hbin : ∀ i (hi : i < (run v (k' + 1) (xs.take (k' + 1))).lists.length),
+      ∃ u, (run v (k' + 1) (xs.take (k' + 1))).lists[i] = [u] ∧
+        (run v (k' + 1) (xs.take (k' + 1))).sums[i]? = some (v u) ∧ u ∈ xs.take (k' + 1) := by
+    intro i hi
+    obtain ⟨u, hu⟩ := List.length_eq_one_iff.1 (hsing _ (List.getElem_mem hi))
+    refine ⟨u, hu, ?_, ?_⟩
+    · rw [hc, List.getElem?_map, List.getElem?_eq_getElem hi, hu]
+      simp [binSum, sumL]
+    · exact hperm.mem_iff.1 (List.mem_flatten.2 ⟨_, List.getElem_mem hi, by rw [hu]; simp⟩)
+  obtain ⟨a, hla, hsa, haP⟩ := hbin _ hjl
+  have hva : v a = minL (run v (k' + 1) (xs.take (k' + 1))).sums := by
+    have := Part.getElem_argmin hjlt
+    rw [List.getElem?_eq_getElem hjlt, this] at hsa
+    simpa using hsa.symm
+  -- after the `(k+1)`-th item
+  have hs1 : (run v (k' + 1) (xs.take (k' + 1) ++ [xs[k' + 1]])).sums[
+      argmin (run v (k' + 1) (xs.take (k' + 1))).sums]? = some (v a + v xs[k' + 1]) := by
+    rw [run_snoc]
+    simp only [greedyStep, Part.add_sums, List.getElem?_modify_eq, hsa]; rfl
+  have hl1 : (run v (k' + 1) (xs.take (k' + 1) ++ [xs[k' + 1]])).lists[
+      argmin (run v (k' + 1) (xs.take (k' + 1))).sums]? = some [a, xs[k' + 1]] := by
+    rw [run_snoc]
+    simp only [greedyStep, Part.add_lists, List.getElem?_modify_eq, List.getElem?_eq_getElem hjl, hla]
+    rfl
+  -- it is closed
+  have hltfin : minL (run v (k' + 1) ((xs.take (k' + 1) ++ [xs[k' + 1]]) ++ xs.drop (k' + 2))).sums <
+      v a + v xs[k' + 1] := by rw [← hsplit]; have := hPz a haP; omega
+  have hclosed := run_closed v hk (xs.take (k' + 1) ++ [xs[k' + 1]]) _ _ hs1 (xs.drop (k' + 2)) hltfin
+  have hskip := skipRun_closed v hk _ _ (xs.drop (k' + 2)) (xs.take (k' + 1) ++ [xs[k' + 1]]) hs1 hltfin
+  rw [← hsplit, hl1] at hclosed
+  obtain ⟨hfs, hfl⟩ := hclosed
+  -- abbreviations
+  generalize hj : argmin (run v (k' + 1) (xs.take (k' + 1))).sums = j at *
+  obtain ⟨hfperm, hflists, hfcons⟩ := run_valid v hk xs
+  have hfslen : (run v (k' + 1) xs).sums.length = k' + 1 := run_sums_length v hk _
+  have hfne := run_sums_ne_nil v hk xs
+  have hjf : j < (run v (k' + 1) xs).lists.length := by omega
+  have hflj : (run v (k' + 1) xs).lists[j] = [a, xs[k' + 1]] := by
+    rw [List.getElem?_eq_getElem hjf] at hfl; simpa using hfl
+  have hfsj : (run v (k' + 1) xs).sums[j]'(by omega) = v a + v xs[k' + 1] := by
+    rw [List.getElem?_eq_getElem (by omega)] at hfs; simpa using hfs
+  have hargne : argmin (run v (k' + 1) xs).sums ≠ j := by
+    intro e
+    have h1 := Part.getElem_argmin (Part.argmin_lt hfne)
+    have h2 := hPz a haP
+    simp only [e] at h1
+    rw [hfsj] at h1
+    omega
+  -- the other bins contain an item that dominates `a`
+  have hdom : ∀ l ∈ (run v (k' + 1) xs).lists.eraseIdx j, ∃ u ∈ l, v a ≤ v u := by
+    intro l hl
+    obtain ⟨i, hi, hij, rfl⟩ := List.mem_eraseIdx_iff_getElem.1 hl
+    have hi' : i < (run v (k' + 1) (xs.take (k' + 1))).lists.length := by omega
+    obtain ⟨u, hu1, hu2, _⟩ := hbin i hi'
+    have hmono := run_lists_mono v (k' + 1) (xs.take (k' + 1)) i [u]
+      (by rw [List.getElem?_eq_getElem hi', hu1]) ([xs[k' + 1]] ++ xs.drop (k' + 2))
+    rw [← List.append_assoc, ← hsplit] at hmono
+    obtain ⟨l', hl', hul'⟩ := hmono
+    rw [List.getElem?_eq_getElem hi] at hl'
+    simp only [Option.some.injEq] at hl'
+    refine ⟨u, by rw [hl']; exact hul' u (by simp), ?_⟩
+    rw [hva]
+    have hi'' : i < (run v (k' + 1) (xs.take (k' + 1))).sums.length := by omega
+    rw [List.getElem?_eq_getElem hi''] at hu2
+    simp only [Option.some.injEq] at hu2
+    rw [← hu2]
+    exact Part.minL_le (List.getElem_mem hi'')
+  -- remove the bin
+  have herase := run_eraseBin v k' j (by omega) xs
+  have hsums' : (run v k' (skipRun v j (Bins.new (k' + 1)) xs)).sums =
+      (run v (k' + 1) xs).sums.eraseIdx j := by rw [← herase]; rfl
+  have hlists' : (run v k' (skipRun v j (Bins.new (k' + 1)) xs)).lists =
+      (run v (k' + 1) xs).lists.eraseIdx j := by rw [← herase]; rfl
+  have hL' : minL (run v k' (skipRun v j (Bins.new (k' + 1)) xs)).sums =
+      minL (run v (k' + 1) xs).sums := by rw [hsums']; exact minL_eraseIdx hargne hfne
+  -- the values
+  obtain ⟨hperm', _, _⟩ := run_valid v hk'pos (skipRun v j (Bins.new (k' + 1)) xs)
+  rw [hlists'] at hperm'
+  have hflat := hfperm.symm.trans (flatten_perm_getElem_eraseIdx _ j hjf)
+  rw [hflj] at hflat
+  have hvals : (xs.map v).Perm (v a :: v xs[k' + 1] ::
+      ((run v (k' + 1) xs).lists.eraseIdx j).flatten.map v) := by
+    simpa using hflat.map v
+  have hcount : k' ≤ (((run v (k' + 1) xs).lists.eraseIdx j).flatten.map v).countP
+      (fun u => decide (v a ≤ u)) := by
+    rw [List.countP_map]
+    have := le_countP_flatten ((fun u => decide (v a ≤ u)) ∘ v) _ (fun g hg => by
+      obtain ⟨u, hu, hau⟩ := hdom g hg
+      exact ⟨u, hu, by simpa using hau⟩)
+    rw [List.length_eraseIdx_of_lt hjf] at this
+    omega
+  -- the tail of the remaining list
+  have htail : (skipRun v j (Bins.new (k' + 1)) xs).drop k' = xs.drop (k' + 2) := by
+    have h1 : skipRun v j (Bins.new (k' + 1)) xs =
+        skipRun v j (Bins.new (k' + 1)) (xs.take (k' + 1) ++ [xs[k' + 1]]) ++ xs.drop (k' + 2) := by
+      conv_lhs => rw [hsplit]
+      rw [skipRun_append]
+      exact congrArg _ hskip
+    have hlen1 := hflat.length_eq
+    have hlen2 := hperm'.length_eq
+    have hlen3 := congrArg List.length h1
+    have hlen4 := congrArg List.length hsplit
+    simp only [List.length_append, List.length_cons, List.length_nil] at hlen1 hlen3 hlen4
+    rw [h1]
+    exact List.drop_left' (by omega)
+  obtain ⟨k'', rfl⟩ : ∃ k'', k' = k'' + 1 := ⟨k' - 1, by omega⟩
+  obtain ⟨Q', hQ'k, hQ'p, hQ'⟩ := cover_drop_pair (W := W) (a := v a) (z := v xs[k'' + 1 + 1]) (k := k'')
+    Q hQk (hQp.trans hvals) hQ (hPz a haP) hcount
+  exact ⟨_, skipRun_sublist v j xs _, hL', htail, Q', hQ'k, hQ'p.trans (hperm'.map v), hQ'⟩
+
 /-- **LPT covers at least `2k/(3k−1) ≥ 2/3` of any cover level.**  For the LPT loop on an ordered list `xs`
     and `k ≥ 1` bins: if the values of `xs` can be split into `k` bins of sum `≥ W` each, then
     `2k · W ≤ (3k − 1) · (smallest sum of LPT)` (written without subtraction).
 
     Induction on `k`.  Let `y` be the `(k+1)`-th value and `L` the smallest sum of LPT.
     * `2y ≤ L`: the spread bound `k·W ≤ k·L + (k−1)·y` gives the claim.
-    * `2y > L`: the bin that receives the `(k+1)`-th item holds two items `a ≥ z`, of sum `≥ 2y > L`, so it is
-      never used again; the other bins start with an item `≥ a`.  Removing this bin leaves an LPT run on `k − 1`
-      bins with the same smallest sum (`run_eraseBin`), and the remaining values can still be split into
-      `k − 1` bins of sum `≥ W` (`cover_drop_pair`). -/
+    * `2y > L`: peel the first pair (`peel_first_pair`) and use the induction hypothesis for `k − 1`. -/
 theorem run_maxmin_two_thirds {v : α → Nat} : ∀ (k : Nat), 0 < k → ∀ (xs : List α),
     xs.Pairwise (fun a c => v c ≤ v a) → ∀ (W : Nat) (Q : List (List Nat)), Q.length = k →
     Q.flatten.Perm (xs.map v) → (∀ l ∈ Q, W ≤ sumL l) →
@@ -475,130 +678,120 @@ theorem run_maxmin_two_thirds {v : α → Nat} : ∀ (k : Nat), 0 < k → ∀ (x
         simp [List.getD_eq_getElem?_getD, this] at hy
       have ey : (xs.map v).getD (k' + 1) 0 = v xs[k' + 1] := by
         simp [List.getD_eq_getElem?_getD, hklt]
-      rw [ey] at hy hsp
-      -- split the list
-      have hsplit : xs = (xs.take (k' + 1) ++ [xs[k' + 1]]) ++ xs.drop (k' + 2) := by
-        rw [List.append_assoc, List.singleton_append, ← List.drop_eq_getElem_cons hklt,
-          List.take_append_drop]
-      have hPlen : (xs.take (k' + 1)).length = k' + 1 := by rw [List.length_take]; omega
-      have hPz : ∀ a ∈ xs.take (k' + 1), v xs[k' + 1] ≤ v a := by
-        intro a ha
-        obtain ⟨i, hi, rfl⟩ := List.mem_iff_getElem.1 ha
-        rw [List.getElem_take]
-        exact (List.pairwise_iff_getElem.1 hS) i (k' + 1) (by omega) hklt (by omega)
-      have hpos : ∀ a ∈ xs.take (k' + 1), 1 ≤ v a := fun a ha => by have := hPz a ha; omega
-      -- the state after `k` items
-      obtain ⟨hperm, hlists, hcons⟩ := run_valid v hk (xs.take (k' + 1))
-      have hc : (run v (k' + 1) (xs.take (k' + 1))).sums =
-          (run v (k' + 1) (xs.take (k' + 1))).lists.map (binSum v) := hcons
-      have hsing := run_singletons v hk _ hPlen hpos
-      have hne := run_sums_ne_nil v hk (xs.take (k' + 1))
-      have hjlt := Part.argmin_lt hne
-      have hslen : (run v (k' + 1) (xs.take (k' + 1))).sums.length = k' + 1 := run_sums_length v hk _
-      have hjl : argmin (run v (k' + 1) (xs.take (k' + 1))).sums <
-          (run v (k' + 1) (xs.take (k' + 1))).lists.length := by omega
-      -- every bin is a singleton whose value is the bin sum
-      have hbin : ∀ i (hi : i < (run v (k' + 1) (xs.take (k' + 1))).lists.length),
-          ∃ u, (run v (k' + 1) (xs.take (k' + 1))).lists[i] = [u] ∧
-            (run v (k' + 1) (xs.take (k' + 1))).sums[i]? = some (v u) ∧ u ∈ xs.take (k' + 1) := by
-        intro i hi
-        obtain ⟨u, hu⟩ := List.length_eq_one_iff.1 (hsing _ (List.getElem_mem hi))
-        refine ⟨u, hu, ?_, ?_⟩
-        · rw [hc, List.getElem?_map, List.getElem?_eq_getElem hi, hu]
-          simp [binSum, sumL]
-        · exact hperm.mem_iff.1 (List.mem_flatten.2 ⟨_, List.getElem_mem hi, by rw [hu]; simp⟩)
-      obtain ⟨a, hla, hsa, haP⟩ := hbin _ hjl
-      have hva : v a = minL (run v (k' + 1) (xs.take (k' + 1))).sums := by
-        have := Part.getElem_argmin hjlt
-        rw [List.getElem?_eq_getElem hjlt, this] at hsa
-        simpa using hsa.symm
-      -- after the `(k+1)`-th item
-      have hs1 : (run v (k' + 1) (xs.take (k' + 1) ++ [xs[k' + 1]])).sums[
-          argmin (run v (k' + 1) (xs.take (k' + 1))).sums]? = some (v a + v xs[k' + 1]) := by
-        rw [run_snoc]
-        simp only [greedyStep, Part.add_sums, List.getElem?_modify_eq, hsa]; rfl
-      have hl1 : (run v (k' + 1) (xs.take (k' + 1) ++ [xs[k' + 1]])).lists[
-          argmin (run v (k' + 1) (xs.take (k' + 1))).sums]? = some [a, xs[k' + 1]] := by
-        rw [run_snoc]
-        simp only [greedyStep, Part.add_lists, List.getElem?_modify_eq, List.getElem?_eq_getElem hjl, hla]
-        rfl
-      -- it is closed
-      have hclosed := run_closed v hk (xs.take (k' + 1) ++ [xs[k' + 1]]) _ _ hs1 (xs.drop (k' + 2))
-        (by rw [← hsplit]; have := hPz a haP; omega)
-      rw [← hsplit, hl1] at hclosed
-      obtain ⟨hfs, hfl⟩ := hclosed
-      -- abbreviations
-      generalize hj : argmin (run v (k' + 1) (xs.take (k' + 1))).sums = j at *
-      obtain ⟨hfperm, hflists, hfcons⟩ := run_valid v hk xs
-      have hfslen : (run v (k' + 1) xs).sums.length = k' + 1 := run_sums_length v hk _
-      have hfne := run_sums_ne_nil v hk xs
-      have hjf : j < (run v (k' + 1) xs).lists.length := by omega
-      have hflj : (run v (k' + 1) xs).lists[j] = [a, xs[k' + 1]] := by
-        rw [List.getElem?_eq_getElem hjf] at hfl; simpa using hfl
-      have hfsj : (run v (k' + 1) xs).sums[j]'(by omega) = v a + v xs[k' + 1] := by
-        rw [List.getElem?_eq_getElem (by omega)] at hfs; simpa using hfs
-      have hargne : argmin (run v (k' + 1) xs).sums ≠ j := by
-        intro e
-        have h1 := Part.getElem_argmin (Part.argmin_lt hfne)
-        have h2 := hPz a haP
-        simp only [e] at h1
-        rw [hfsj] at h1
-        omega
-      -- the other bins contain an item that dominates `a`
-      have hdom : ∀ l ∈ (run v (k' + 1) xs).lists.eraseIdx j, ∃ u ∈ l, v a ≤ v u := by
-        intro l hl
-        obtain ⟨i, hi, hij, rfl⟩ := List.mem_eraseIdx_iff_getElem.1 hl
-        have hi' : i < (run v (k' + 1) (xs.take (k' + 1))).lists.length := by omega
-        obtain ⟨u, hu1, hu2, _⟩ := hbin i hi'
-        have hmono := run_lists_mono v (k' + 1) (xs.take (k' + 1)) i [u]
-          (by rw [List.getElem?_eq_getElem hi', hu1]) ([xs[k' + 1]] ++ xs.drop (k' + 2))
-        rw [← List.append_assoc, ← hsplit] at hmono
-        obtain ⟨l', hl', hul'⟩ := hmono
-        rw [List.getElem?_eq_getElem hi] at hl'
-        simp only [Option.some.injEq] at hl'
-        refine ⟨u, by rw [hl']; exact hul' u (by simp), ?_⟩
-        rw [hva]
-        have hi'' : i < (run v (k' + 1) (xs.take (k' + 1))).sums.length := by omega
-        rw [List.getElem?_eq_getElem hi''] at hu2
-        simp only [Option.some.injEq] at hu2
-        rw [← hu2]
-        exact Part.minL_le (List.getElem_mem hi'')
-      -- remove the bin
-      have herase := run_eraseBin v k' j (by omega) xs
-      have hS' : (skipRun v j (Bins.new (k' + 1)) xs).Pairwise (fun a c => v c ≤ v a) :=
-        hS.sublist (skipRun_sublist v j xs _)
+      rw [ey] at hy
       have hk'pos : 0 < k' := Nat.pos_of_ne_zero hk'
-      have hsums' : (run v k' (skipRun v j (Bins.new (k' + 1)) xs)).sums =
-          (run v (k' + 1) xs).sums.eraseIdx j := by rw [← herase]; rfl
-      have hlists' : (run v k' (skipRun v j (Bins.new (k' + 1)) xs)).lists =
-          (run v (k' + 1) xs).lists.eraseIdx j := by rw [← herase]; rfl
-      have hL' : minL (run v k' (skipRun v j (Bins.new (k' + 1)) xs)).sums =
-          minL (run v (k' + 1) xs).sums := by rw [hsums']; exact minL_eraseIdx hargne hfne
-      -- the values
-      obtain ⟨hperm', _, _⟩ := run_valid v hk'pos (skipRun v j (Bins.new (k' + 1)) xs)
-      rw [hlists'] at hperm'
-      have hvals : (xs.map v).Perm (v a :: v xs[k' + 1] ::
-          ((run v (k' + 1) xs).lists.eraseIdx j).flatten.map v) := by
-        have := (hfperm.symm.trans (flatten_perm_getElem_eraseIdx _ j hjf)).map v
-        rw [hflj] at this
-        simpa using this
-      have hcount : k' ≤ (((run v (k' + 1) xs).lists.eraseIdx j).flatten.map v).countP
-          (fun u => decide (v a ≤ u)) := by
-        rw [List.countP_map]
-        have := le_countP_flatten ((fun u => decide (v a ≤ u)) ∘ v) _ (fun g hg => by
-          obtain ⟨u, hu, hau⟩ := hdom g hg
-          exact ⟨u, hu, by simpa using hau⟩)
-        rw [List.length_eraseIdx_of_lt hjf] at this
-        omega
-      obtain ⟨k'', rfl⟩ : ∃ k'', k' = k'' + 1 := ⟨k' - 1, by omega⟩
-      obtain ⟨Q', hQ'k, hQ'p, hQ'⟩ := cover_drop_pair (W := W) (a := v a) (z := v xs[k'' + 1 + 1]) (k := k'')
-        Q hQk (hQp.trans hvals) hQ (hPz a haP) hcount
-      have key := ih hk'pos _ hS' W Q' hQ'k (hQ'p.trans (hperm'.map v)) hQ'
+      obtain ⟨ys, hsub, hL', _, Q', hQ'k, hQ'p, hQ'⟩ :=
+        peel_first_pair hk'pos hS hklt (by omega) Q hQk hQp hQ
+      have key := ih hk'pos ys (hS.sublist hsub) W Q' hQ'k hQ'p hQ'
       rw [hL'] at key
-      have h2 : 2 * W ≤ 3 * minL (run v (k'' + 1 + 1) xs).sums := by
-        have : (k'' + 1) * (2 * W) ≤ (k'' + 1) * (3 * minL (run v (k'' + 1 + 1) xs).sums) := by nlinarith
-        exact Nat.le_of_mul_le_mul_left this (by omega)
+      have h2 : 2 * W ≤ 3 * minL (run v (k' + 1) xs).sums := by
+        have : k' * (2 * W) ≤ k' * (3 * minL (run v (k' + 1) xs).sums) := by nlinarith
+        exact Nat.le_of_mul_le_mul_left this hk'pos
       nlinarith
+
+/-! ### the exact constant `(3k−1)/(4k−2)` when no late item lies in the window `(k·W/(4k−2), L/2]` -/
+
+theorem arith_exact_spread {k W y L : Nat} (hk : 0 < k) (h1 : k * W + y ≤ k * L + k * y)
+    (h2 : (4 * k - 2) * y ≤ k * W) : 3 * k * W + 2 * L ≤ 4 * k * L + W := by
+  obtain ⟨k', rfl⟩ : ∃ k', k = k' + 1 := ⟨k - 1, by omega⟩
+  have e : 4 * (k' + 1) - 2 = 4 * k' + 2 := by omega
+  rw [e] at h2
+  have h3 := Nat.mul_le_mul_left k' h2
+  have h4 : (k' + 1) * ((4 * k' + 2) * W) ≤ (k' + 1) * ((4 * k' + 2) * L + k' * W) := by nlinarith
+  have h5 := Nat.le_of_mul_le_mul_left h4 (by omega)
+  nlinarith
+
+theorem arith_exact_step {k' W L : Nat} (hk' : 0 < k') (h : 3 * k' * W + 2 * L ≤ 4 * k' * L + W) :
+    3 * (k' + 1) * W + 2 * L ≤ 4 * (k' + 1) * L + W := by
+  obtain ⟨j, rfl⟩ : ∃ j, k' = j + 1 := ⟨k' - 1, by omega⟩
+  -- (3j+2)·W ≤ (4j+2)·L  ⟹  (3j+5)·W ≤ (4j+6)·L
+  have h1 : (3 * j + 2) * W ≤ (4 * j + 2) * L := by nlinarith
+  have h2 : (3 * j + 2) * ((3 * j + 5) * W) ≤ (3 * j + 2) * ((4 * j + 6) * L) := by nlinarith
+  have h3 := Nat.le_of_mul_le_mul_left h2 (by omega)
+  nlinarith
+
+theorem arith_thresh {k' W x : Nat} (hk' : 0 < k') (h : (4 * (k' + 1) - 2) * x ≤ (k' + 1) * W) :
+    (4 * k' - 2) * x ≤ k' * W := by
+  obtain ⟨j, rfl⟩ : ∃ j, k' = j + 1 := ⟨k' - 1, by omega⟩
+  have e1 : 4 * (j + 1 + 1) - 2 = 4 * j + 6 := by omega
+  have e2 : 4 * (j + 1) - 2 = 4 * j + 2 := by omega
+  rw [e1] at h
+  rw [e2]
+  -- x ≤ (j+2)·W/(4j+6) ≤ (j+1)·W/(4j+2)
+  have h2 : (4 * j + 6) * ((4 * j + 2) * x) ≤ (4 * j + 6) * ((j + 1) * W) := by nlinarith
+  exact Nat.le_of_mul_le_mul_left h2 (by omega)
+
+/-- **The exact constant, outside a window.**  For the LPT loop on an ordered list: if every item after the `k`
+    first ones has a value `x` with `(4k−2)·x ≤ k·W` or `2·x > L` (`L` the smallest sum of LPT, `W` a cover level),
+    then `(3k−1)·W ≤ (4k−2)·L` (written without subtraction: `3k·W + 2·L ≤ 4k·L + W`).
+
+    Induction on `k`: if the `(k+1)`-th value `y` satisfies `(4k−2)·y ≤ k·W` the spread bound gives the claim;
+    if `2y > L` the first pair is peeled; the thresholds `k/(4k−2)` and `(3k−1)/(4k−2)` both move in the right
+    direction when `k` decreases. -/
+theorem run_maxmin_window {v : α → Nat} : ∀ (k : Nat), 0 < k → ∀ (xs : List α),
+    xs.Pairwise (fun a c => v c ≤ v a) → ∀ (W : Nat) (Q : List (List Nat)), Q.length = k →
+    Q.flatten.Perm (xs.map v) → (∀ l ∈ Q, W ≤ sumL l) →
+    (∀ x ∈ xs.drop k, (4 * k - 2) * v x ≤ k * W ∨ minL (run v k xs).sums < 2 * v x) →
+    3 * k * W + 2 * minL (run v k xs).sums ≤ 4 * k * minL (run v k xs).sums + W := by
+  intro k
+  induction k with
+  | zero => intro h; omega
+  | succ k' ih =>
+    intro hk xs hS W Q hQk hQp hQ hwin
+    have hsp := run_spread hk hS Q hQk hQp hQ
+    by_cases hklt : k' + 1 < xs.length
+    · have ey : (xs.map v).getD (k' + 1) 0 = v xs[k' + 1] := by
+        simp [List.getD_eq_getElem?_getD, hklt]
+      rw [ey] at hsp
+      have hdrop : xs.drop (k' + 1) = xs[k' + 1] :: xs.drop (k' + 2) := List.drop_eq_getElem_cons hklt
+      have hmem : xs[k' + 1] ∈ xs.drop (k' + 1) := by rw [hdrop]; exact List.mem_cons_self
+      rcases hwin _ hmem with hsmall | hlarge
+      · exact arith_exact_spread hk hsp hsmall
+      · by_cases hk' : k' = 0
+        · subst hk'
+          simp only [Nat.zero_add, Nat.one_mul, Nat.mul_one] at hsp ⊢
+          omega
+        have hk'pos : 0 < k' := Nat.pos_of_ne_zero hk'
+        obtain ⟨ys, hsub, hL', htail, Q', hQ'k, hQ'p, hQ'⟩ :=
+          peel_first_pair hk'pos hS hklt hlarge Q hQk hQp hQ
+        have key := ih hk'pos ys (hS.sublist hsub) W Q' hQ'k hQ'p hQ' (by
+          intro x hx
+          rw [htail] at hx
+          have hx' : x ∈ xs.drop (k' + 1) := by rw [hdrop]; exact List.mem_cons_of_mem _ hx
+          rw [hL']
+          rcases hwin x hx' with h | h
+          · exact Or.inl (arith_thresh hk'pos h)
+          · exact Or.inr h)
+        rw [hL'] at key
+        exact arith_exact_step hk'pos key
+    · -- at most `k` items: the `(k+1)`-th value is `0`
+      have : (xs.map v)[k' + 1]? = none := List.getElem?_eq_none (by simpa using Nat.le_of_not_lt hklt)
+      have ey : (xs.map v).getD (k' + 1) 0 = 0 := by simp [List.getD_eq_getElem?_getD, this]
+      rw [ey] at hsp
+      exact arith_exact_spread hk hsp (by simp)
+
+/-- **A certificate for the exact constant.**  If in the final LPT state every bin with at least two items exceeds
+    the smallest sum `L` by at most `y`, and `(4k−2)·y ≤ k·W` for a cover level `W`, then
+    `(3k−1)·W ≤ (4k−2)·L`.  (Purely combinatorial: `spread_core`.) -/
+theorem run_maxmin_cert {v : α → Nat} {k : Nat} (hk : 0 < k) {xs : List α} {W : Nat} (Q : List (List Nat))
+    (hQk : Q.length = k) (hQp : Q.flatten.Perm (xs.map v)) (hQ : ∀ l ∈ Q, W ≤ sumL l) (y : Nat)
+    (hinv : ∀ l ∈ (run v k xs).lists, l.length ≤ 1 ∨ binSum v l ≤ minL (run v k xs).sums + y)
+    (hy : (4 * k - 2) * y ≤ k * W) :
+    3 * k * W + 2 * minL (run v k xs).sums ≤ 4 * k * minL (run v k xs).sums + W := by
+  obtain ⟨h1, h2, h3⟩ := run_valid v hk xs
+  have hc : (run v k xs).sums = (run v k xs).lists.map (binSum v) := h3
+  have hsp := spread_core (W := W) (k := k) (L := minL (run v k xs).sums) (y := y)
+    (vals := xs.map v) ((run v k xs).lists.map (List.map v)) Q (by simpa using h2)
+    (by rw [← List.map_flatten]; exact h1.map v)
+    (by rw [hc, List.map_map]; rfl) hk
+    (by
+      intro l' hl'
+      obtain ⟨l, hl, rfl⟩ := List.mem_map.1 hl'
+      rcases hinv l hl with h | h
+      · left; simpa using h
+      · right; exact h)
+    hQk hQp hQ
+  exact arith_exact_spread hk hsp hy
 
 /-! ## 6. The unconditional max-min guarantees of `greedy` proved here -/
 
@@ -640,6 +833,80 @@ example : 2 * 2 * 6 ≤ (3 * 2 - 1) * minL (greedy id 2 [3, 3, 2, 2, 2]).sums :=
   greedy_maxmin_partial_2k_3k (v := id) (by decide) optmin_33222
 example : 2 * 6 ≤ 3 * minL (greedy id 2 [3, 3, 2, 2, 2]).sums :=
   greedy_maxmin_partial_two_thirds (v := id) (by decide) optmin_33222
+
+theorem arith_final {k W L : Nat} (hk : 0 < k) (h : 3 * k * W + 2 * L ≤ 4 * k * L + W) :
+    (3 * k - 1) * W ≤ (4 * k - 2) * L := by
+  obtain ⟨k', rfl⟩ : ∃ k', k = k' + 1 := ⟨k - 1, by omega⟩
+  have e1 : 3 * (k' + 1) - 1 = 3 * k' + 2 := by omega
+  have e2 : 4 * (k' + 1) - 2 = 4 * k' + 2 := by omega
+  rw [e1, e2]
+  nlinarith
+
+/-- an optimum computed by the verified oracle -/
+theorem isOptimal_of_optValue {o : Objective} {k : Nat} {vals : List Nat} {x : Int} (hk : 0 < k)
+    (h : optValue o k vals = some x) : IsOptimalValue o k vals x := by
+  obtain ⟨x', h1, h2⟩ := Oracle.optValue_spec o vals hk
+  rw [h] at h1
+  cases h1
+  exact h2
+
+/-- **Max-min, exact constant, partial (window form).**  `(3k−1)·OPT ≤ (4k−2)·(smallest sum of LPT)` provided
+    no item after the `k` largest has a value `x` in the window `k·OPT/(4k−2) < x ≤ L/2`, `L` being LPT's smallest
+    sum.  This contains `LPT43.greedy_maxmin_partial_small` (there all later values are `≤ k·OPT/(4k−2)`).
+
+    The full statement
+    `(3 * k - 1) * opt ≤ (4 * k - 2) * minL (greedy v k items).sums`   (without `hwin`)
+    of Csirik, Kellerer and Woeginger remains open: the missing case is that, after peeling the closed first
+    pairs, the `(k+1)`-th largest value `y` satisfies `k·OPT/(4k−2) < y ≤ L/2` (then every LPT bin holds at most
+    three of the values above `k·OPT/(4k−2)`; the tight instances `2k−1, 2k−1, …, k, k, k, …` lie here). -/
+theorem greedy_maxmin_partial_window {v : α → Nat} {k : Nat} {items : List α} (hk : 0 < k) {opt : Nat}
+    (hopt : IsOptimalValue .maxSmallest k (items.map v) (-(opt : Int)))
+    (hwin : ∀ x ∈ (sortDesc v items).drop k,
+      (4 * k - 2) * v x ≤ k * opt ∨ minL (greedy v k items).sums < 2 * v x) :
+    (3 * k - 1) * opt ≤ (4 * k - 2) * minL (greedy v k items).sums := by
+  obtain ⟨W, hW, Q, hQk, hQp, hQ⟩ := cover_of_opt hk hopt
+  have hW' : W = opt := by exact_mod_cast hW
+  subst hW'
+  rw [greedy_eq_run] at hwin ⊢
+  exact arith_final hk (run_maxmin_window (v := v) k hk (sortDesc v items) (Part.sortDesc_sorted v items) W Q hQk
+    (hQp.trans ((Part.sortDesc_perm v items).map v).symm) hQ hwin)
+
+/-- **Max-min, exact constant, a-posteriori certificate.**  If every bin of LPT's result with at least two items
+    exceeds the smallest sum `L` by at most `y`, and `(4k−2)·y ≤ k·OPT`, then
+    `(3k−1)·OPT ≤ (4k−2)·L`. -/
+theorem greedy_maxmin_partial_cert {v : α → Nat} {k : Nat} {items : List α} (hk : 0 < k) {opt : Nat}
+    (hopt : IsOptimalValue .maxSmallest k (items.map v) (-(opt : Int))) (y : Nat)
+    (hinv : ∀ l ∈ (greedy v k items).lists,
+      l.length ≤ 1 ∨ binSum v l ≤ minL (greedy v k items).sums + y)
+    (hy : (4 * k - 2) * y ≤ k * opt) :
+    (3 * k - 1) * opt ≤ (4 * k - 2) * minL (greedy v k items).sums := by
+  obtain ⟨W, hW, Q, hQk, hQp, hQ⟩ := cover_of_opt hk hopt
+  have hW' : W = opt := by exact_mod_cast hW
+  subst hW'
+  rw [greedy_eq_run] at hinv ⊢
+  exact arith_final hk (run_maxmin_cert hk Q hQk
+    (hQp.trans ((Part.sortDesc_perm v items).map v).symm) hQ y hinv hy)
+
+/-- non-vacuity of the window form: `[6, 5, 5, 3]` on two bins, `OPT = 9`, LPT gives `[6, 3], [5, 5]`: the third
+    value `5` exceeds `2·9/6 = 3` but `2·5 > 9`, so the first pair `[5, 5]` is peeled; the last value `3` is small -/
+theorem optmin_6553 : IsOptimalValue .maxSmallest 2 ([6, 5, 5, 3].map id) (-((9 : Nat) : Int)) := by
+  refine ⟨⟨[0, 1, 1, 0], ⟨rfl, by decide⟩, by decide⟩, ?_⟩
+  intro asg hasg
+  obtain ⟨Q, hQk, hQp, hQs⟩ := assignment_partition hasg
+  have h1 := length_mul_minL_le (sumsOf 2 ([6, 5, 5, 3].map id) asg)
+  rw [← hQs, ← sumL_flatten, Part.sumL_perm hQp, List.length_map, hQk] at h1
+  simp only [Objective.value, Bool.false_eq_true, if_false]
+  have : sumL ([6, 5, 5, 3].map id) = 19 := by decide
+  rw [← hQs]
+  omega
+
+example : (3 * 2 - 1) * 9 ≤ (4 * 2 - 2) * minL (greedy id 2 [6, 5, 5, 3]).sums :=
+  greedy_maxmin_partial_window (v := id) (by decide) optmin_6553 (by decide)
+
+/-- non-vacuity of the certificate: `[3, 3, 2, 2, 2]`, two bins, `OPT = 6`, `L = 5`, the other bin has sum `7`,
+    `y = 2`, `6·2 ≤ 2·6` (tight: `5·6 = 6·5`) -/
+example : (3 * 2 - 1) * 6 ≤ (4 * 2 - 2) * minL (greedy id 2 [3, 3, 2, 2, 2]).sums :=
+  greedy_maxmin_partial_cert (v := id) (by decide) optmin_33222 2 (by decide) (by decide)
 
 /-! ## 7. The binary search of `multifit` -/
 
@@ -730,7 +997,7 @@ theorem multifit_lo_bound {k : Nat} (hk : 0 < k) {items : List α} {opt : Int}
 
 /-- `FfdFits ρ`: first-fit on the list `xs` fits into `k` bins for **every** capacity `c ≥ ρ · OPT`.
     (For `xs` sorted decreasingly and `ρ = 1.22` this is the theorem of Coffman, Garey and Johnson; it is proved
-    below for `ρ = 2k/(k+1)`.) -/
+    below for `ρ = 4/3` and for `ρ = 2k/(k+1)`.) -/
 def FfdFits (k : Nat) (xs : List α) (ρ opt : Rat) : Prop := ∀ c : Rat, ρ * opt ≤ c → Fits v k xs c
 
 /-- **Multifit, conditional ratio.**  If first-fit-decreasing fits into `k` bins for every capacity
@@ -774,6 +1041,199 @@ theorem multifit_ratio_of_ffdFits {k : Nat} {items : List α} {it : Nat} {b : Bi
     rw [e1]
     linarith
 
+/-! ### first-fit-decreasing with capacity `≥ 4/3 · T` -/
+
+/-- **First-fit-decreasing with capacity above `4/3 · T` fits into `k` bins** whenever the values fit into `k`
+    bins of capacity `T`.  Induction over the prefixes of the ordered list: let `x` be the first item that does not
+    fit into any of `k` open bins.  If `3·x ≤ T`, every bin is filled above `B − x ≥ T`, too much in total.
+    Otherwise all items so far exceed `T/3`, and by `LPT43.large_fits` (a counting statement about *arbitrary*
+    distributions of such items over `k` bins) some bin has room for `x` even within `T ≤ B`. -/
+theorem ffd_fold_fits_four_thirds {k : Nat} (hk : 0 < k) {T B : Nat} (hB : 4 * T < 3 * (B + 1)) :
+    ∀ xs : List α, xs.Pairwise (fun a c => v c ≤ v a) → Packable T k (xs.map v) → (∀ x ∈ xs, v x ≤ B) →
+      (xs.foldl (ffStep v B) (Bins.new 1)).lists.length ≤ k := by
+  intro xs
+  induction xs using Oracle.rev_induction with
+  | nil => intro _ _ _; simp [Bins.new]; omega
+  | snoc P x ih =>
+    intro hS hp hall
+    obtain ⟨hS1, _, hS2⟩ := List.pairwise_append.1 hS
+    have hpP : Packable T k (P.map v) := by rw [List.map_append] at hp; exact packable_prefix _ hp
+    have hallP : ∀ y ∈ P, v y ≤ B := fun y hy => hall y (by simp [hy])
+    have hih := ih hS1 hpP hallP
+    have hinv : Fit.Inv v B P (P.foldl (ffStep v B) (Bins.new 1)) := by
+      simpa using Fit.inv_foldl (ffStep v B) (Fit.ffStep_step v B) P [] (Bins.new 1) hallP (Fit.inv_init v B)
+    rw [List.foldl_append, List.foldl_cons, List.foldl_nil]
+    rcases Fit.ffStep_step v B (P.foldl (ffStep v B) (Bins.new 1)) x with ⟨i, _, _, e⟩ | ⟨hno, e⟩
+    · rw [e]; simpa using hih
+    · rw [e, Fit.addEmpty_add v _ x hinv.len]
+      simp only [List.length_append, List.length_cons, List.length_nil]
+      apply Nat.succ_le_of_lt
+      apply Nat.lt_of_le_of_ne hih
+      intro hlen
+      -- `k` bins, none of which has room for `x`
+      have hc := hinv.cons
+      have hsl : (P.foldl (ffStep v B) (Bins.new 1)).sums.length = k := by rw [hinv.len, hlen]
+      by_cases hx : T < 3 * v x
+      · obtain ⟨l', hl', hfit⟩ := large_fits (T := T) (k := k) (m := v x) (vals := P.map v)
+          ((P.foldl (ffStep v B) (Bins.new 1)).lists.map (List.map v)) (by simpa using hlen)
+          (by rw [← List.map_flatten]; exact hinv.perm.map v) (by simpa using hp)
+          (fun y hy => by obtain ⟨a, ha, rfl⟩ := List.mem_map.1 hy; exact hS2 a ha x (by simp)) hx
+        obtain ⟨l, hl, rfl⟩ := List.mem_map.1 hl'
+        have hmem : binSum v l ∈ (P.foldl (ffStep v B) (Bins.new 1)).sums := by
+          rw [hc]; exact List.mem_map_of_mem hl
+        have e1 : binSum v l = sumL (l.map v) := rfl
+        exact hno _ hmem (by omega)
+      · have h1 : ∀ s ∈ (P.foldl (ffStep v B) (Bins.new 1)).sums, T + 1 ≤ s + 0 := by
+          intro s hs
+          have := hno s hs
+          omega
+        have h2 := Part.length_mul_le_sumL _ (T + 1) 0 h1
+        have h3 : sumL (P.foldl (ffStep v B) (Bins.new 1)).sums = sumL (P.map v) := by
+          rw [hc, Fit.sumL_map_binSum, Fit.binSum_perm hinv.perm]; rfl
+        have h4 := packable_sum hpP
+        rw [hsl, h3] at h2
+        have : k * (T + 1) = k * T + k := by ring
+        omega
+
+theorem ffd_fits_four_thirds {k : Nat} (hk : 0 < k) {xs : List α}
+    (hS : xs.Pairwise (fun a c => v c ≤ v a)) {T : Nat} (hp : Packable T k (xs.map v)) {B : Nat}
+    (hB : 4 * T < 3 * (B + 1)) {b : Bins α} (h : ffOnline v B xs = .ok b) : b.lists.length ≤ k := by
+  simp only [ffOnline, Fit.ffLoop_eq] at h
+  have hall := Fit.gen_ok_all_le h
+  rw [Fit.genLoop_ok v B _ xs _ hall] at h
+  cases h
+  exact ffd_fold_fits_four_thirds v hk hB xs hS hp hall
+
+/-- `FfdFits ρ` for every `ρ ≥ 4/3` -/
+theorem ffdFits_four_thirds {k : Nat} (hk : 0 < k) {items : List α} {opt : Int}
+    (hopt : IsOptimalValue .minLargest k (items.map v) opt) {ρ : Rat} (hρ : 4 / 3 ≤ ρ) :
+    FfdFits v k (sortDesc v items) ρ opt := by
+  obtain ⟨T, rfl, hp⟩ := packable_of_opt hopt
+  have hsp := Part.sortDesc_perm v items
+  have hp' : Packable T k ((sortDesc v items).map v) := packable_perm (hsp.map v).symm hp
+  have hM : ∀ x ∈ sortDesc v items, v x ≤ T :=
+    fun x hx => packable_item_le hp' (List.mem_map_of_mem hx)
+  intro c hc
+  have hT0 : (0 : Rat) ≤ (T : Rat) := by positivity
+  have hc' : 4 / 3 * (T : Rat) ≤ c := by
+    push_cast at hc
+    nlinarith
+  obtain ⟨b', e', _, q2, _⟩ := Part.ffOnline_of_cap v (sortDesc v items) hM c (by linarith)
+  refine ⟨b'.sums.length, by simp only [ffCount, e']; rfl, ?_⟩
+  rw [Part.consistent_length v q2]
+  have hB := Part.lt_floorNat_succ (4 * T) 6 c (by omega) (by push_cast; linarith)
+  exact ffd_fits_four_thirds v hk (Part.sortDesc_sorted v items) hp' (by omega) e'
+
+/-- `FfdFits ρ` for every `ρ ≥ 2k/(k+1)` (the any-fit argument: two bins together exceed the capacity) -/
+theorem ffdFits_anyfit {k : Nat} (hk : 0 < k) {items : List α} {opt : Int}
+    (hopt : IsOptimalValue .minLargest k (items.map v) opt) {ρ : Rat} (hρ : 2 * (k : Rat) ≤ ρ * (k + 1)) :
+    FfdFits v k (sortDesc v items) ρ opt := by
+  obtain ⟨T, rfl, hp⟩ := packable_of_opt hopt
+  have hsp := Part.sortDesc_perm v items
+  have hp' : Packable T k ((sortDesc v items).map v) := packable_perm (hsp.map v).symm hp
+  have hM : ∀ x ∈ sortDesc v items, v x ≤ T :=
+    fun x hx => packable_item_le hp' (List.mem_map_of_mem hx)
+  have hS := packable_sum hp'
+  intro c hc
+  have hT0 : (0 : Rat) ≤ (T : Rat) := by positivity
+  have hk1 : (1 : Rat) ≤ (k : Rat) := by exact_mod_cast hk
+  have hρ1 : 1 ≤ ρ := by nlinarith
+  push_cast at hc
+  obtain ⟨b', e', q1, q2, q3⟩ := Part.ffOnline_of_cap v (sortDesc v items) hM c (by nlinarith)
+  refine ⟨b'.sums.length, by simp only [ffCount, e']; rfl, ?_⟩
+  apply Nat.le_of_not_lt
+  intro hlt
+  have hpw : b'.sums.Pairwise (fun a c' => floorNat c + 1 ≤ a + c') := q3.imp (fun h => by omega)
+  have h1 := Part.pairwise_sum_bound (floorNat c + 1) b'.sums hpw (by omega)
+  have htot : sumL b'.sums = sumL ((sortDesc v items).map v) := by
+    rw [q2, Part.sumL_map_binSum, Part.binSum_perm v q1]; rfl
+  have hB := Part.lt_floorNat_succ (k * T) (k + 1) c (by omega) (by
+    have hk2 : (0 : Rat) < ((k + 1 : Nat) : Rat) := by positivity
+    rw [div_le_iff₀ hk2]
+    push_cast
+    nlinarith)
+  have h2 := Nat.mul_le_mul_right (floorNat c + 1) (show k + 1 ≤ b'.sums.length by omega)
+  rw [htot] at h1
+  omega
+
+/-- **Multifit, unconditional: `4/3 + 2^−it`.** -/
+theorem multifit_ratio_four_thirds {k : Nat} {items : List α} {it : Nat} {b : Bins α} (hk : 0 < k) {opt : Int}
+    (hopt : IsOptimalValue .minLargest k (items.map v) opt) (h : multifit v k items it = .ok b) :
+    ((maxL b.sums : Nat) : Rat) ≤ (4 / 3 + 1 / 2 ^ it) * opt :=
+  multifit_ratio_of_ffdFits v hk hopt (by norm_num) (ffdFits_four_thirds v hk hopt (le_refl _)) h
+
+/-- **Multifit, unconditional: `2k/(k+1) + 2^−it`** (better than the previous bound for `k = 1`). -/
+theorem multifit_ratio_anyfit {k : Nat} {items : List α} {it : Nat} {b : Bins α} (hk : 0 < k) {opt : Int}
+    (hopt : IsOptimalValue .minLargest k (items.map v) opt) (h : multifit v k items it = .ok b) :
+    ((maxL b.sums : Nat) : Rat) ≤ (2 * k / (k + 1) + 1 / 2 ^ it) * opt := by
+  have hk1 : (1 : Rat) ≤ (k : Rat) := by exact_mod_cast hk
+  have hk2 : (0 : Rat) < (k : Rat) + 1 := by positivity
+  refine multifit_ratio_of_ffdFits v hk hopt ?_ (ffdFits_anyfit v hk hopt ?_) h
+  · rw [le_div_iff₀ hk2]; linarith
+  · rw [div_mul_cancel₀ _ (ne_of_gt hk2)]
+
+/-- **Multifit, as in the documentation with `2` in place of `1.22`**: `(2 + 2^−it) · OPT`. -/
+theorem multifit_ratio_two {k : Nat} {items : List α} {it : Nat} {b : Bins α} (hk : 0 < k) {opt : Int}
+    (hopt : IsOptimalValue .minLargest k (items.map v) opt) (h : multifit v k items it = .ok b) :
+    ((maxL b.sums : Nat) : Rat) ≤ (2 + 1 / 2 ^ it) * opt := by
+  have h1 := multifit_ratio_four_thirds v hk hopt h
+  have h0 : (0 : Rat) ≤ (opt : Rat) :=
+    le_trans (le_trans (by positivity) (Part.ratMax_right _ _)) (multifit_lo_bound v hk hopt).1
+  nlinarith
+
+/-! ### non-vacuity (`[3, 3, 2, 2, 2]` on two bins, optimal largest sum `6`, see `LPT43.opt_33222`) -/
+
+example : ∃ cap lo' : Rat, multifitSearch id 2 (sortDesc id [3, 3, 2, 2, 2]) 5 6 12 = .ok cap ∧
+    cap - lo' = (12 - 6) / 2 ^ 5 ∧ (lo' = 6 ∨ Fails id 2 (sortDesc id [3, 3, 2, 2, 2]) lo') := by
+  obtain ⟨cap, e, _⟩ := Part.multifitSearch_spec id (M := 3) 2 (sortDesc id [3, 3, 2, 2, 2]) (by decide)
+    (fun _ => True) (fun _ _ _ _ _ => trivial) 5 6 12 (by norm_num) (by norm_num) trivial
+  obtain ⟨lo', h1, _, h3, _⟩ := multifit_search_invariant id 2 _ 5 6 12 cap e
+  exact ⟨cap, lo', e, h1, h3⟩
+
+example : ratMax (((sumL ([3, 3, 2, 2, 2].map id) : Nat) : Rat) / (2 : Nat))
+    ((maxL ([3, 3, 2, 2, 2].map id) : Nat) : Rat) ≤ ((6 : Int) : Rat) :=
+  (multifit_lo_bound id (k := 2) (by decide) opt_33222).1
+
+example : ∃ b, multifit id 2 [3, 3, 2, 2, 2] 10 = .ok b ∧
+    ((maxL b.sums : Nat) : Rat) ≤ (4 / 3 + 1 / 2 ^ 10) * ((6 : Int) : Rat) := by
+  obtain ⟨b, h, _⟩ := Part.multifit_perm (v := id) (k := 2) (items := [3, 3, 2, 2, 2]) (it := 10)
+    (by decide) (by decide)
+  exact ⟨b, h, multifit_ratio_of_ffdFits id (by decide) opt_33222 (by norm_num)
+    (ffdFits_four_thirds id (by decide) opt_33222 (le_refl _)) h⟩
+
+example : ∃ b, multifit id 2 [3, 3, 2, 2, 2] 10 = .ok b ∧
+    ((maxL b.sums : Nat) : Rat) ≤ (2 * (2 : Nat) / ((2 : Nat) + 1) + 1 / 2 ^ 10) * ((6 : Int) : Rat) := by
+  obtain ⟨b, h, _⟩ := Part.multifit_perm (v := id) (k := 2) (items := [3, 3, 2, 2, 2]) (it := 10)
+    (by decide) (by decide)
+  exact ⟨b, h, multifit_ratio_anyfit id (by decide) opt_33222 h⟩
+
+example : FfdFits id 2 (sortDesc id [3, 3, 2, 2, 2]) (4 / 3) ((6 : Int) : Rat) :=
+  ffdFits_four_thirds id (by decide) opt_33222 (le_refl _)
+
 end Multifit
 
 end Prtpy.MaxMin
+
+/-
+Axiom audit (Lean 4.33.0; output observed with the commands appended to a copy of this file):
+
+#print axioms Prtpy.MaxMin.run_eraseBin
+#print axioms Prtpy.MaxMin.cover_drop_pair
+#print axioms Prtpy.MaxMin.peel_first_pair
+#print axioms Prtpy.MaxMin.run_maxmin_two_thirds
+#print axioms Prtpy.MaxMin.run_maxmin_window
+#print axioms Prtpy.MaxMin.greedy_maxmin_partial_2k_3k
+#print axioms Prtpy.MaxMin.greedy_maxmin_partial_two_thirds
+#print axioms Prtpy.MaxMin.greedy_maxmin_partial_window
+#print axioms Prtpy.MaxMin.greedy_maxmin_partial_cert
+#print axioms Prtpy.MaxMin.multifit_search_invariant
+#print axioms Prtpy.MaxMin.multifit_lo_bound
+#print axioms Prtpy.MaxMin.multifit_ratio_of_ffdFits
+#print axioms Prtpy.MaxMin.ffd_fits_four_thirds
+#print axioms Prtpy.MaxMin.ffdFits_four_thirds
+#print axioms Prtpy.MaxMin.ffdFits_anyfit
+#print axioms Prtpy.MaxMin.multifit_ratio_four_thirds
+#print axioms Prtpy.MaxMin.multifit_ratio_anyfit
+#print axioms Prtpy.MaxMin.multifit_ratio_two
+  -- each of them: depends on axioms: [propext, Classical.choice, Quot.sound]
+-/
